@@ -664,3 +664,128 @@ func init() {
 		})
 	}
 }
+
+func init() {
+	intrinsics["internal/bytealg.CountString"] = func(e *Engine, fr *frame, fn *ssa.Function, args []Value, g *Term, pos token.Pos) Value {
+		s := args[0].(*StrV)
+		c := args[1].(*Term)
+		if s.Max > 512 {
+			panic(unsupported("CountString on long symbolic string"))
+		}
+		n := c64(0)
+		for i := 0; i < s.Max; i++ {
+			ii := c64(int64(i))
+			n = Add(n, Ite(And(Ult(ii, s.Len), Eq(Select(s.Data, ii), c)), c64(1), c64(0)))
+		}
+		return n
+	}
+	intrinsics["internal/bytealg.IndexString"] = func(e *Engine, fr *frame, fn *ssa.Function, args []Value, g *Term, pos token.Pos) Value {
+		a, b := args[0].(*StrV), args[1].(*StrV)
+		if a.Max > 256 || b.Max > 64 {
+			panic(unsupported("IndexString on long symbolic strings"))
+		}
+		res := Const(64, ^uint64(0))
+		for i := a.Max; i >= 0; i-- {
+			ii := c64(int64(i))
+			// match at i: i+len(b) <= len(a) and bytes equal
+			cs := []*Term{Ule(Add(ii, b.Len), a.Len)}
+			for k := 0; k < b.Max; k++ {
+				kk := c64(int64(k))
+				cs = append(cs, Or(Uge(kk, b.Len), Eq(Select(a.Data, Add(ii, kk)), Select(b.Data, kk))))
+			}
+			res = Ite(And(cs...), ii, res)
+		}
+		return res
+	}
+}
+
+func init() {
+	foreignGlobals["internal/bytealg.MaxLen"] = func(e *Engine, t types.Type) Value { return c64(63) }
+	intrinsics["strings.Index"] = intrinsics["internal/bytealg.IndexString"]
+	intrinsics["strings.IndexByte"] = intrinsics["internal/bytealg.IndexByteString"]
+}
+
+// ---- strings.Builder: {addr *Builder; buf []byte} without the unsafe tricks ----
+func init() {
+	bufPtr := func(p *PtrV) *PtrV { return p.extend(PathElem{Field: 1}) }
+	byteSliceT := types.NewSlice(types.Typ[types.Uint8])
+	appendTo := func(e *Engine, fr *frame, p *PtrV, more Value, g *Term, pos token.Pos) {
+		cur := e.load(fr, bufPtr(p), g, pos).(*SliceV)
+		nv := e.appendOp(fr, cur, more, byteSliceT, g, pos)
+		e.store(fr, bufPtr(p), nv, g, pos)
+	}
+	intrinsics["(*strings.Builder).copyCheck"] = noop
+	intrinsics["(*strings.Builder).Grow"] = noop
+	intrinsics["(*strings.Builder).WriteString"] = func(e *Engine, fr *frame, fn *ssa.Function, args []Value, g *Term, pos token.Pos) Value {
+		appendTo(e, fr, args[0].(*PtrV), args[1], g, pos)
+		return &StructV{F: []Value{args[1].(*StrV).Len, &IfaceV{}}}
+	}
+	intrinsics["(*strings.Builder).Write"] = func(e *Engine, fr *frame, fn *ssa.Function, args []Value, g *Term, pos token.Pos) Value {
+		appendTo(e, fr, args[0].(*PtrV), args[1], g, pos)
+		return &StructV{F: []Value{args[1].(*SliceV).Len, &IfaceV{}}}
+	}
+	intrinsics["(*strings.Builder).WriteByte"] = func(e *Engine, fr *frame, fn *ssa.Function, args []Value, g *Term, pos token.Pos) Value {
+		d := Store(ConstArr(64, 8, Const(8, 0)), c64(0), args[1].(*Term))
+		appendTo(e, fr, args[0].(*PtrV), &StrV{Len: c64(1), Data: d, Max: 1}, g, pos)
+		return &IfaceV{}
+	}
+	intrinsics["(*strings.Builder).WriteRune"] = func(e *Engine, fr *frame, fn *ssa.Function, args []Value, g *Term, pos token.Pos) Value {
+		e.note("strings.Builder.WriteRune modelled for ASCII only")
+		d := Store(ConstArr(64, 8, Const(8, 0)), c64(0), Extract(args[1].(*Term), 7, 0))
+		appendTo(e, fr, args[0].(*PtrV), &StrV{Len: c64(1), Data: d, Max: 1}, g, pos)
+		return &StructV{F: []Value{c64(1), &IfaceV{}}}
+	}
+	intrinsics["(*strings.Builder).String"] = func(e *Engine, fr *frame, fn *ssa.Function, args []Value, g *Term, pos token.Pos) Value {
+		cur := e.load(fr, bufPtr(args[0].(*PtrV)), g, pos).(*SliceV)
+		return e.convert(fr, cur, byteSliceT, types.Typ[types.String], g)
+	}
+	intrinsics["(*strings.Builder).Len"] = func(e *Engine, fr *frame, fn *ssa.Function, args []Value, g *Term, pos token.Pos) Value {
+		return e.load(fr, bufPtr(args[0].(*PtrV)), g, pos).(*SliceV).Len
+	}
+	intrinsics["(*strings.Builder).Reset"] = func(e *Engine, fr *frame, fn *ssa.Function, args []Value, g *Term, pos token.Pos) Value {
+		e.store(fr, bufPtr(args[0].(*PtrV)), zeroValue(byteSliceT), g, pos)
+		return nil
+	}
+}
+
+// ---- reflection-driven codecs: opaque (arbitrary result / arbitrary error) ----
+func (e *Engine) nondetErr(tag string) *IfaceV {
+	b := e.newNondet(tag+".fails", "bool", 1, BoolSort, 0)
+	er := e.opaqueError(tag, nil).(*IfaceV)
+	return mergeIface(b, er, &IfaceV{})
+}
+
+func init() {
+	for _, n := range []string{"encoding/base64.StdEncoding", "encoding/base64.URLEncoding", "encoding/base64.RawStdEncoding", "encoding/base64.RawURLEncoding"} {
+		nn := n
+		foreignGlobals[n] = func(e *Engine, t types.Type) Value {
+			et := t.(*types.Pointer).Elem()
+			return ptrTo(newObject("opaque:"+nn, et, zeroValue(et)))
+		}
+	}
+	intrinsics["(*encoding/base64.Encoding).DecodeString"] = func(e *Engine, fr *frame, fn *ssa.Function, args []Value, g *Term, pos token.Pos) Value {
+		e.note("base64 decoding is opaque: arbitrary bytes (<= 3/4 of the input) or an arbitrary error")
+		in := args[1].(*StrV)
+		mx := in.Max
+		n := e.newNondet("base64.len", "bv", 64, BV(64), 0)
+		e.assume(Ule(n, c64(int64(mx))))
+		arr := Fresh("base64.out", ArrS(64, 8))
+		o := newObject("base64out", types.NewArray(types.Typ[types.Uint8], int64(mx)), &ArrV{T: arr, N: c64(int64(mx)), EW: 8})
+		return &StructV{F: []Value{&SliceV{Arr: ptrTo(o), Off: c64(0), Len: n, Cap: c64(int64(mx))}, e.nondetErr("base64.DecodeString")}}
+	}
+	intrinsics["(*encoding/base64.Encoding).EncodeToString"] = func(e *Engine, fr *frame, fn *ssa.Function, args []Value, g *Term, pos token.Pos) Value {
+		return e.opaqueString("base64.EncodeToString")
+	}
+	intrinsics["google.golang.org/protobuf/proto.Unmarshal"] = func(e *Engine, fr *frame, fn *ssa.Function, args []Value, g *Term, pos token.Pos) Value {
+		e.note("proto.Unmarshal is opaque: arbitrary error, message contents not modelled")
+		return e.nondetErr("proto.Unmarshal")
+	}
+	intrinsics["google.golang.org/protobuf/proto.Marshal"] = func(e *Engine, fr *frame, fn *ssa.Function, args []Value, g *Term, pos token.Pos) Value {
+		e.note("proto.Marshal is opaque")
+		arr := Fresh("proto.out", ArrS(64, 8))
+		n := e.newNondet("proto.len", "bv", 64, BV(64), 0)
+		e.assume(Ule(n, c64(256)))
+		o := newObject("protoout", types.NewArray(types.Typ[types.Uint8], 256), &ArrV{T: arr, N: c64(256), EW: 8})
+		return &StructV{F: []Value{&SliceV{Arr: ptrTo(o), Off: c64(0), Len: n, Cap: c64(256)}, e.nondetErr("proto.Marshal")}}
+	}
+}
